@@ -112,10 +112,12 @@ int read_srec(const char *filename, Memory *memory)
     byte_count = get_hex(in, 2);
 
     checksum_calc = byte_count;
+    bool address_error = false;
 
     if (record_type == 1)
     {
       address = get_hex(in, 4);
+      address_error = address < 0;
       checksum_calc = byte_count + (address >> 8) + (address & 0xff);
       byte_count -= 3;
     }
@@ -123,12 +125,17 @@ int read_srec(const char *filename, Memory *memory)
     if (record_type == 2)
     {
       address = get_hex(in, 6);
+      address_error = address < 0;
       checksum_calc = byte_count + (address >> 16) + ((address >> 8) & 0xff) + (address & 0xff);
       byte_count -= 4;
     }
       else
     {
-      address = get_hex(in, 8);
+      // All 32 bits are used, so read the halves to see an error.
+      int upper = get_hex(in, 4);
+      int lower = get_hex(in, 4);
+      address_error = upper < 0 || lower < 0;
+      address = (upper << 16) | (lower & 0xffff);
       checksum_calc = byte_count + (address >> 24) + ((address >> 16) & 0xff) + ((address >> 8) & 0xff) + (address & 0xff);
       byte_count -= 5;
     }
@@ -138,6 +145,15 @@ int read_srec(const char *filename, Memory *memory)
     printf(" data_bytes: %02x (%d)\n", byte_count, byte_count);
     printf("    address: %04x (%d)\n", address, address);
 #endif
+
+    // get_hex() returns a negative number for anything but hex digits and
+    // the count has to cover at least the address and the checksum.
+    if (byte_count < 0 || address_error)
+    {
+      printf("read_srec: Illegal record on line %d!\n", line);
+      start_address = -4;
+      break;
+    }
 
     if (start == -1)
     {
